@@ -216,16 +216,22 @@ theorem mergeSlices_spec (less : α → α → Bool)
 
 example : mergeSlices (fun a b => decide (a < b)) popFirstMin 3 [[1, 3], [2]] = ([1, 2, 3], true) := by decide
 
-/-- `MinK` for any heap meeting `PopSpec` and a strict weak order: returns `min(k, n)` items (none
-for `k ≤ 0`), sorted, taken from the input, and nothing left out is less than anything returned. -/
-theorem minK_spec (less : α → α → Bool) (pop : (α → α → Bool) → List α → Option (α × List α))
-    (hp : PopSpec pop) (hw : StrictWeak less) (xs : List α) (k : Int) :
-    (minK less pop xs k).length = min k.toNat xs.length ∧ SortedBy less (minK less pop xs k) ∧
-    ∃ rest, xs.Perm (minK less pop xs k ++ rest) ∧ ∀ a ∈ minK less pop xs k, ∀ b ∈ rest, less b a = false :=
-  Proofs.Helpers.minK_spec less pop hp hw xs k
+/-- `MinK` for any heap meeting `PopSpec`, a strict weak order and every `int` `k`: never panics and
+returns `min(k, n)` items (none for `k ≤ 0`), sorted, taken from the input, and nothing left out is less
+than anything returned. The output loop is modelled statement by statement: `out := make([]T, h.Len())`,
+`for i := len(out) - 1; i >= 0; i-- { out[i] = h.Pop() }` with the generated length, start index (64-bit:
+`len(out) - 1` is exact because `h.Len() ≤ k ≤ MaxInt64`) and loop condition; `zero` is what `make` fills
+the slice with (no slot keeps it). -/
+theorem minK_spec (zero : α) (less : α → α → Bool) (pop : (α → α → Bool) → List α → Option (α × List α))
+    (hp : PopSpec pop) (hw : StrictWeak less) (xs : List α) (k : Int) (hk64 : k ≤ 9223372036854775807) :
+    ∃ out, minK zero less pop xs k = some out ∧
+    out.length = min k.toNat xs.length ∧ SortedBy less out ∧
+    ∃ rest, xs.Perm (out ++ rest) ∧ ∀ a ∈ out, ∀ b ∈ rest, less b a = false :=
+  Proofs.Helpers.minK_spec zero less pop hp hw xs k hk64
 
-example : minK (fun a b => decide (a < b)) popFirstMin [5, 1, 4, 2] 2 = [1, 2] ∧
-    minK (fun a b => decide (a < b)) popFirstMin [5, 1] 7 = [1, 5] := by decide
+example : minK 0 (fun a b => decide (a < b)) popFirstMin [5, 1, 4, 2] 2 = some [1, 2] ∧
+    minK 0 (fun a b => decide (a < b)) popFirstMin [5, 1] 7 = some [1, 5] ∧
+    minK 0 (fun a b => decide (a < b)) popFirstMin [5, 1] (-3) = some [] := by decide
 
 /-! ## xmaps (maps as association lists `mget`/`mput`, sets as lists) -/
 
@@ -235,22 +241,25 @@ variable {κ ν : Type} [DecidableEq κ]
 theorem union_spec (sets : List (List κ)) (x : κ) : x ∈ setUnion sets ↔ ∃ s ∈ sets, x ∈ s :=
   Proofs.Helpers.mem_setUnion sets x
 
-/-- `Intersection`: an element is in the result iff there is at least one set and it is in all. -/
-theorem intersection_spec (sets : List (List κ)) (x : κ) :
-    x ∈ setIntersection sets ↔ sets ≠ [] ∧ ∀ s ∈ sets, x ∈ s :=
-  Proofs.Helpers.mem_setIntersection sets x
+/-- `Intersection` never panics (`sets[j]` stays in range); an element is in the result iff there is at
+least one set and it is in all. The inner loop is modelled statement by statement from the generated
+`j := 1`, `j < len(sets)`, `j++`, miss guard, `include = false`, `break`, `if include`, and the sort by size. -/
+theorem intersection_spec (sets : List (List κ)) :
+    ∃ r, setIntersection sets = some r ∧ ∀ x, x ∈ r ↔ sets ≠ [] ∧ ∀ s ∈ sets, x ∈ s :=
+  Proofs.Helpers.mem_setIntersection sets
 
-/-- `Intersects`: true iff there is at least one set and some element is in all of them. -/
+/-- `Intersects` never panics; true iff there is at least one set and some element is in all of them. -/
 theorem intersects_spec (sets : List (List κ)) :
-    setIntersects sets = true ↔ sets ≠ [] ∧ ∃ x, ∀ s ∈ sets, x ∈ s :=
+    ∃ b, setIntersects sets = some b ∧ (b = true ↔ sets ≠ [] ∧ ∃ x, ∀ s ∈ sets, x ∈ s) :=
   Proofs.Helpers.setIntersects_iff sets
 
 /-- `Difference`. -/
 theorem difference_spec (a b : List κ) (x : κ) : x ∈ setDifference a b ↔ x ∈ a ∧ x ∉ b :=
   Proofs.Helpers.mem_setDifference a b x
 
-example : setUnion [[1, 2], [2, 3]] = [1, 2, 3] ∧ setIntersection [[1, 2, 3], [2, 3], [3, 2, 5]] = [2, 3] ∧
-    setIntersection ([] : List (List Int)) = [] ∧ setIntersects [[1, 2], [3]] = false ∧
+example : setUnion [[1, 2], [2, 3]] = [1, 2, 3] ∧ setIntersection [[1, 2, 3], [2, 3], [3, 2, 5]] = some [2, 3] ∧
+    setIntersection ([] : List (List Int)) = some [] ∧ setIntersects [[1, 2], [3]] = some false ∧
+    setIntersects [[1, 2], [3, 2], [2]] = some true ∧
     setDifference [1, 2, 3] [2] = [1, 3] := by decide
 
 /-- `Reverse`: `k` is listed under `v` iff `m[k] = v`. -/
@@ -441,9 +450,12 @@ theorem sampler_decisions_contract (k n maxInt : Int) (hk : 0 ≤ k) (m : Nat) (
 example : samplerRun 99 4 (newSamp 2) [(some 1, 0), (some 0, 1)] = [(0, 0), (1, 1), (3, 0), (4, 1)] ∧
     samplerRun 99 3 (newSamp 2) [(none, 0)] = [(0, 0), (1, 1), (99, 0)] := by decide
 
-/-- `Shuffle`: whatever in-range swaps `rand.Shuffle` asks for, the result is a permutation. -/
+/-- `Shuffle`: whatever swaps `r.Shuffle(n, swap)` asks for — `swap(i, j)` with `0 ≤ i, j < n`, and `n` is
+what `rShuffle` hands over: the generated `shuffleN (len a)` (= `len(a)`) — the result is a permutation
+(no index panic). Were the count `len(a) + 1`, the hypothesis would allow the index `len(a)` and the
+statement would be false. -/
 theorem shuffle_perm (a : List α) (swaps : List (Int × Int))
-    (h : ∀ p ∈ swaps, 0 ≤ p.1 ∧ p.1 < a.length ∧ 0 ≤ p.2 ∧ p.2 < a.length) :
+    (h : ∀ p ∈ swaps, 0 ≤ p.1 ∧ p.1 < shuffleN a.length ∧ 0 ≤ p.2 ∧ p.2 < shuffleN a.length) :
     ∃ a', applySwaps swaps a = some a' ∧ a'.Perm a :=
   Proofs.Helpers.shuffle_perm a swaps h
 
